@@ -8,7 +8,7 @@ From ZC Require Import Model.Base Model.PyRec Model.Dict Model.Re Model.Utf8 Mod
   Model.WireDec Model.WireEnc Model.OutQueue Model.Register Model.Listener Model.Node Model.Front
   Gen.Const Gen.Extra Gen.DnsPure Gen.Shapes Spec.CacheSpec Spec.AnswerSpec.
 From ZC Require Import Proofs.C01_defs Proofs.C02_total Proofs.C03_reg Proofs.C05_cache
-  Proofs.C15_enc Proofs.C15_dec Proofs.C15_resp.
+  Proofs.C15_enc Proofs.C15_dec Proofs.C15_resp Proofs.C15_svc.
 Import ListNotations.
 Open Scope Z_scope.
 Ltac Zify.zify_post_hook ::= Z.to_euclidean_division_equations.
@@ -43,6 +43,27 @@ Proof. intros data now H. apply parse_total_bytes; [exact H|unfold FRAMES; lia].
 
 (* ... so the [Some e => (f, [ORaise e])] branch of fstep is dead for real datagrams: a datagram that passes the two
    guards is handed to the listener and only the listener / node / encoder decide what comes out *)
+Lemma fstep_datagram_unfold_gen : forall f data addr port now tc rq rd,
+  m_escaped (parse data now None FRAMES) = None ->
+  Z.of_nat (length data) <= C_MAX_MSG_ABSOLUTE -> is_duplicate (f_ls f) data now = false ->
+  fstep f (FDatagram data addr port now tc rq rd) =
+  let p := parse data now None FRAMES in
+  let m := lmsg_of data p in
+  let msgs' := d_set bytes_eqb (f_msgs f) (mkey addr data) (qmsg_of p now, m_id p) in
+  let '(ls', o) := datagram (f_ls f) m addr now (nonempty (g_services (n_reg (f_node f)))) tc in
+  match o with
+  | OResponse _ =>
+      let '(n', outs) := nstep (f_node f) (LResp now (m_answers p)) in
+      ({| f_node := n'; f_ls := ls'; f_msgs := f_msgs f |}, send_gate outs)
+  | ORespond a packets => respond f ls' msgs' a port packets now rq rd
+  | ODeferred => ({| f_node := f_node f; f_ls := ls'; f_msgs := msgs' |}, [])
+  | _ => ({| f_node := f_node f; f_ls := ls'; f_msgs := f_msgs f |}, [])
+  end.
+Proof.
+  intros f data addr port now tc rq rd Hesc Hsz Hdup. cbn [fstep].
+  destruct (Z.of_nat (length data) >? C_MAX_MSG_ABSOLUTE) eqn:E; [lia|]. rewrite Hdup, Hesc. reflexivity.
+Qed.
+
 Corollary fstep_datagram_unfold : forall f data addr port now tc rq rd, Forall is_byte data ->
   Z.of_nat (length data) <= C_MAX_MSG_ABSOLUTE -> is_duplicate (f_ls f) data now = false ->
   fstep f (FDatagram data addr port now tc rq rd) =
@@ -59,9 +80,7 @@ Corollary fstep_datagram_unfold : forall f data addr port now tc rq rd, Forall i
   | _ => ({| f_node := f_node f; f_ls := ls'; f_msgs := f_msgs f |}, [])
   end.
 Proof.
-  intros f data addr port now tc rq rd Hb Hsz Hdup. cbn [fstep].
-  destruct (Z.of_nat (length data) >? C_MAX_MSG_ABSOLUTE) eqn:E; [lia|]. rewrite Hdup.
-  rewrite (decoder_contained data now Hb). reflexivity.
+  intros f data addr port now tc rq rd Hb. apply fstep_datagram_unfold_gen. apply decoder_contained. exact Hb.
 Qed.
 
 (* ---- the listener on a datagram that passed the guards ---- *)
@@ -436,11 +455,26 @@ Definition wire_label (f : fnode) (l : flabel) : Prop :=
   | FNode _ => False
   end.
 
-(* what a datagram / timer label can let out: nothing (the record manager is silent), or what the encoder gate makes of
-   the sends of ONE query-handler label on a NON-EMPTY list of decoded packets that all satisfy [Q].
-   The IndexError of `packets[0]` and the decoder branch are not among the possibilities. *)
+(* the same without the hypothesis on the bytes *)
+Definition timer_ok (f : fnode) (l : flabel) : Prop :=
+  match l with
+  | FDatagram _ _ _ _ _ _ _ => True
+  | FTimer addr _ _ _ _ => timer_pending f addr
+  | FNode _ => False
+  end.
+
+Lemma wire_timer_ok f l : wire_label f l -> timer_ok f l.
+Proof. destruct l; intro H; [exact I|exact H|exact H]. Qed.
+
+(* what a datagram / timer label can let out: nothing (the record manager is silent), an exception escaping from the
+   decoder (never for real datagrams: decoder_contained), or what the encoder gate makes of the sends of ONE
+   query-handler label on a NON-EMPTY list of decoded packets that all satisfy [Q].
+   The IndexError of `packets[0]` is not among the possibilities. *)
 Inductive front_out (Q : qmsg * Z -> Prop) (f : fnode) (l : flabel) : Prop :=
 | FO_silent : snd (fstep f l) = [] -> front_out Q f l
+| FO_decoder data addr port now tc rq rd e :
+    l = FDatagram data addr port now tc rq rd -> m_escaped (parse data now None FRAMES) = Some e ->
+    snd (fstep f l) = [ORaise e] -> front_out Q f l
 | FO_query now qm id rest addr port rq rd :
     Forall Q ((qm, id) :: rest) ->
     snd (fstep f l) = send_gate (snd (nstep (f_node f) (LQuery now (qm :: map fst rest) id addr port rq rd))) ->
@@ -460,20 +494,22 @@ Proof.
   - rewrite E. destruct (nstep (f_node f) _) as [n' outs]. reflexivity.
 Qed.
 
-Lemma fstep_wire_cases (Q : qmsg * Z -> Prop) f l : FInv f -> wire_label f l ->
+Lemma fstep_wire_cases (Q : qmsg * Z -> Prop) f l : FInv f -> timer_ok f l ->
   (forall k x, In (k, x) (f_msgs f) -> Q x) ->
   (forall data addr port now tc rq rd, l = FDatagram data addr port now tc rq rd ->
      Q (qmsg_of (parse data now None FRAMES) now, m_id (parse data now None FRAMES))) ->
   front_out Q f l.
 Proof.
   intros [HI1 HI2] Hl HQ Hnew.
-  destruct l as [data addr port now tc rq rd|addr port now rq rd|nl]; [| |destruct Hl]; cbn [wire_label] in Hl.
+  destruct l as [data addr port now tc rq rd|addr port now rq rd|nl]; [| |destruct Hl]; cbn [timer_ok] in Hl.
   - specialize (Hnew data addr port now tc rq rd eq_refl).
     destruct (Z.of_nat (length data) >? C_MAX_MSG_ABSOLUTE) eqn:Esz.
     { apply FO_silent. cbn [fstep]. rewrite Esz. reflexivity. }
     destruct (is_duplicate (f_ls f) data now) eqn:Edup.
     { apply FO_silent. cbn [fstep]. rewrite Esz, Edup. reflexivity. }
-    pose proof (fstep_datagram_unfold f data addr port now tc rq rd Hl ltac:(lia) Edup) as EU. cbv zeta in EU.
+    destruct (m_escaped (parse data now None FRAMES)) as [e|] eqn:Eesc.
+    { apply (FO_decoder Q f _ data addr port now tc rq rd e eq_refl Eesc). cbn [fstep]. rewrite Esz, Edup, Eesc. reflexivity. }
+    pose proof (fstep_datagram_unfold_gen f data addr port now tc rq rd Eesc ltac:(lia) Edup) as EU. cbv zeta in EU.
     set (p := parse data now None FRAMES) in *.
     set (msgs' := d_set bytes_eqb (f_msgs f) (mkey addr data) (qmsg_of p now, m_id p)) in *.
     destruct (datagram (f_ls f) (lmsg_of data p) addr now (nonempty (g_services (n_reg (f_node f)))) tc) as [ls' o] eqn:E.
@@ -534,12 +570,15 @@ Qed.
 (* 5 (statement): under the front invariant, an IndexError coming out of a datagram or a (pending) timer label can only
    have been raised by the encoder - `packets[0]` on an empty list never happens.  For a timer label whose address has
    no deferred packets the model does emit it (timer_not_pending_raises below): that is the side condition. *)
-Theorem no_index_error : forall f l, FInv f -> wire_label f l ->
+Theorem no_index_error : forall f l, FInv f -> timer_ok f l ->
   In (ORaise IndexError) (snd (fstep f l)) -> exists m, packets m = Raise IndexError.
 Proof.
   intros f l HI Hl Hin.
-  destruct (fstep_wire_cases (fun _ => True) f l HI Hl) as [E|now qm id rest addr port rq rd _ E]; try (intros; exact I).
+  destruct (fstep_wire_cases (fun _ => True) f l HI Hl) as [E|data addr port now tc rq rd e _ Eesc E|now qm id rest addr port rq rd _ E];
+    try (intros; exact I).
   - rewrite E in Hin. destruct Hin.
+  - rewrite E in Hin. destruct Hin as [Hin|[]]. inversion Hin; subst e.
+    apply escaped_not_caught in Eesc. discriminate Eesc.
   - rewrite E in Hin. apply send_gate_raise in Hin as [Hin|(t & dest & m & _ & Hp & _)]; [|exists m; exact Hp].
     apply lquery_outs in Hin as (a & _ & Ha). destruct a; try discriminate Ha; destruct Ha.
 Qed.
@@ -550,12 +589,10 @@ Proof. reflexivity. Qed.
 (* ================================================================================================ *)
 (* 6. the encoder behind the node                                                                    *)
 
-(* every record the responder can emit for a registered service (svc_records: the service-type enumeration pointer,
-   dns_pointer, dns_service, dns_text, the addresses and the NSEC record) is encodable: names of at most 253 characters
-   without lone surrogates and with labels of at most 63 UTF-8 bytes, 16-bit port / weight / priority, 32-bit TTLs,
-   rdata of at most 65535 bytes *)
-Definition RegEncodable (g : registry) : Prop :=
-  forall s, In s (registered g) -> Forall rec_encodable (svc_records s).
+(* RegEncodable g (Proofs/C15_svc.v): every record the responder can emit for a registered service (svc_records: the
+   service-type enumeration pointer, dns_pointer, dns_service, dns_text, the addresses, the NSEC record) is rec_encodable;
+   svc_fields_encodable gives the field-level sufficient condition (three encodable names, 16-bit port / weight /
+   priority, 32-bit TTLs, TXT and addresses of at most 65535 bytes). *)
 
 Lemma flags_resp_u16 : u16 FLAGS_QR_RESPONSE_AA.
 Proof. unfold u16, FLAGS_QR_RESPONSE_AA, C_FLAGS_QR_RESPONSE, C_FLAGS_AA. change (Z.lor 32768 1024) with 33792. lia. Qed.
@@ -824,9 +861,10 @@ Qed.
 Theorem wire_step_silent : forall f l, Good f -> wire_label f l -> forall e, ~ In (ORaise e) (snd (fstep f l)).
 Proof.
   intros f l (H1 & H2 & H3 & H4 & H5) Hl e Hin.
-  destruct (fstep_wire_cases QOk f l H1 Hl H2) as [E|now qm id rest addr port rq rd HQ E].
+  destruct (fstep_wire_cases QOk f l H1 (wire_timer_ok f l Hl) H2) as [E|data addr port now tc rq rd e0 El Eesc E|now qm id rest addr port rq rd HQ E].
   - intros data addr port now tc rq rd ->. apply parse_QOk. exact Hl.
   - rewrite E in Hin. destruct Hin.
+  - subst l. cbn [wire_label] in Hl. rewrite (decoder_contained data now Hl) in Eesc. discriminate Eesc.
   - rewrite E in Hin.
     destruct encoder_contained as (_ & _ & Hc).
     assert (HQO : QueryOk (qm :: map fst rest) id).
@@ -870,6 +908,64 @@ Proof.
   - intros now. apply purge_inv. exact H4.
 Qed.
 
+
+(* ================================================================================================ *)
+(* non-vacuity and necessity of the hypotheses                                                       *)
+
+Definition ex_type : text := [95;120;46;95;116;99;112;46;108;111;99;97;108;46].          (* "_x._tcp.local." *)
+Definition ex_name : text := 97 :: 46 :: ex_type.                                         (* "a._x._tcp.local." *)
+Definition ex_host : text := [104;46;108;111;99;97;108;46].                               (* "h.local." *)
+Definition ex_svc (server : text) : svc :=
+  {| s_type := ex_type; s_name := ex_name; s_server := server; s_port := 80; s_weight := 0; s_priority := 0;
+     s_text := [0]; s_host_ttl := 120; s_other_ttl := 4500; s_v4 := [[10;0;0;1]]; s_v6 := [] |}.
+Definition ex_register (server : text) : flabel := FNode (LRegister 1 0 (ex_svc server) true false true).
+(* the query "SRV a._x._tcp.local. IN", id 7 *)
+Definition ex_query : bytes :=
+  [0;7;0;0;0;1;0;0;0;0;0;0; 1;97; 2;95;120; 4;95;116;99;112; 5;108;111;99;97;108; 0; 0;33; 0;1].
+(* the same question followed by one whose first label is 22 invalid bytes: decoded to 22 x U+FFFD = 66 UTF-8 bytes *)
+Definition ex_query_bad : bytes :=
+  [0;7;0;0;0;2;0;0;0;0;0;0; 1;97; 2;95;120; 4;95;116;99;112; 5;108;111;99;97;108; 0; 0;33; 0;1]
+  ++ (22 :: repeat 255 22) ++ [2;95;120; 4;95;116;99;112; 5;108;111;99;97;108; 0; 0;33; 0;1].
+
+Lemma ex_bytes : Forall is_byte ex_query /\ Forall is_byte ex_query_bad.
+Proof. split; repeat constructor; unfold is_byte; lia. Qed.
+
+(* a legitimate run: an encodable service is registered, then the query arrives - from the mDNS port (multicast
+   reply) and from another port (unicast + multicast reply); both are answered and nothing is raised *)
+Example ex_run :
+  let ls := [ex_register ex_host; FDatagram ex_query [49] 5353 1000 450 20 20] in
+  run_ok fnode_init ls /\
+  (exists m, snd (fstep (fstate fnode_init [ex_register ex_host]) (FDatagram ex_query [49] 5353 1000 450 20 20))
+             = [OSend 1000 None m]) /\
+  (exists m1 m2, snd (fstep (fstate fnode_init [ex_register ex_host]) (FDatagram ex_query [49] 1234 1000 450 20 20))
+             = [OSend 1000 (Some ([49], 1234)) m1; OSend 1000 None m2]).
+Proof.
+  cbv zeta. split; [|split].
+  - cbn [run_ok]. split; [|split; [exact (proj1 ex_bytes)|exact I]].
+    cbn [label_ok ex_register]. apply RegEncodable_fields.
+    assert (E : registered (n_reg (fst (nstep (f_node fnode_init) (LRegister 1 0 (ex_svc ex_host) true false true)))) = [ex_svc ex_host])
+      by (vm_compute; reflexivity).
+    rewrite E. intros s [<-|[]]. apply svc_fields_okb_ok. vm_compute. reflexivity.
+  - eexists. vm_compute. reflexivity.
+  - eexists. eexists. vm_compute. reflexivity.
+Qed.
+
+(* RegEncodable is necessary: the host name of a service is not validated at registration; with a 66-byte label in it
+   the SRV answer cannot be encoded and NamePartTooLong escapes from datagram_received - although the datagram is harmless *)
+Example ex_unencodable_service_escapes :
+  let bad_host := repeat 65533 22 ++ [46;108;111;99;97;108;46] in
+  let f := fstate fnode_init [ex_register bad_host] in
+  snd (fstep fnode_init (ex_register bad_host)) = [OChecked; ORegistered [ex_name]] /\
+  snd (fstep f (FDatagram ex_query [49] 5353 1000 450 20 20)) = [ORaise NamePartTooLong].
+Proof. vm_compute. split; reflexivity. Qed.
+
+(* the question echo: with an encodable registry, a unicast query carrying a question that cannot be re-encoded gets
+   no unicast reply (the NamePartTooLong of the echo is dropped by send_gate) and nothing escapes *)
+Example ex_bad_question_dropped :
+  let f := fstate fnode_init [ex_register ex_host] in
+  snd (fstep f (FDatagram ex_query_bad [49] 1234 1000 450 20 20)) = [].
+Proof. vm_compute. reflexivity. Qed.
+
 Print Assumptions oversize_ignored.
 Print Assumptions duplicate_ignored.
 Print Assumptions at_limit_processed.
@@ -877,6 +973,9 @@ Print Assumptions decoder_contained.
 Print Assumptions datagrams_touch_only.
 Print Assumptions FInv_init.
 Print Assumptions FInv_step.
+Print Assumptions fstep_wire_cases.
+Print Assumptions services_survive.
+Print Assumptions Good_step.
 Print Assumptions no_index_error.
 Print Assumptions encoder_contained.
 Print Assumptions query_actions_encodable.
